@@ -451,6 +451,21 @@ func runC10(c *Ctx) {
 			}
 		}
 		c.Check(bad == "", "C10.R3", shortFn(ptr)+": PTR value is fully qualified", ptr.Pos(), "dns.Fqdn(value) or value ending in '.'", bad)
+		// the name that is validated is the value without exactly one trailing dot: otherwise
+		// "example.net.." passes validation although the stored value is not a well-formed FQDN
+		bad = "the PTR value is not validated as a host name"
+		for _, ef := range s.Effects {
+			if ef.Kind == "call" && strings.HasSuffix(ef.Call.Aux, "validateHost") && len(ef.Call.Args) >= 1 {
+				v := ps[2]
+				want := u.LibCall("strings.TrimSuffix", types.Typ[types.String], v, u.Str("."))
+				if ok, _ := semEqual(u, ef.Call.Args[0], want); ok {
+					bad = ""
+				} else {
+					bad = "the validated name is " + clip(u.Show(ef.Call.Args[0]), 100) + ", not the value without exactly one trailing dot: a value with several trailing dots (example.net..) is accepted and stored as is"
+				}
+			}
+		}
+		c.Check(bad == "", "C10.R3", shortFn(ptr)+": the validated name is the value minus one trailing dot", ptr.Pos(), "validateHost(strings.TrimSuffix(value, \".\")) in normal form", bad)
 	} else {
 		c.Fail("C10.R3", "PTR handler", ldr.Pos(), "no handler registered for PTR")
 	}
